@@ -1,6 +1,7 @@
 import CkcVerif.Model.Ranker
 import CkcVerif.Props.C02
 import CkcVerif.Lemmas.KernNames
+import CkcVerif.Lemmas.NamesDistinct
 import CkcVerif.Lemmas.HandValue
 /-!
 # C06 — hand rank name and class describe exactly the poker class of the value
@@ -109,6 +110,10 @@ theorem C06_hand_rank_six_seven {n : Nat} (hn : n = 6 ∨ n = 7) {cs : List Card
     | false => rfl
     | true => have := (isInvalid_iff v).mp hi; omega
 
+/-- the 309 class names of the specification are pairwise distinct (so a name identifies a class) -/
+theorem C06_names_distinct : allDescr.Nodup ∧ (allDescr.map specName).Nodup ∧ allDescr.length = 309 :=
+  names_distinct
+
 end C06
 
 #print axioms C06.C06_invalid_iff
@@ -119,3 +124,4 @@ end C06
 #print axioms C06.C06_hand
 #print axioms C06.C06_hand_rank_five
 #print axioms C06.C06_hand_rank_six_seven
+#print axioms C06.C06_names_distinct
